@@ -32,6 +32,7 @@ for p in sorted(glob.glob(os.path.join(driver.REPLAY_DIR, prop, "*.case"))):
     if not m: continue
     key = m.group(1).strip()
     if key in have: continue
+    if len(sys.argv) > 3 and not re.search(sys.argv[3], key): continue
     if not re.search(r"^kase ", txt, re.M): continue   # stale (pre-kase) file: decoding may have changed
     if key not in best or len(txt) < len(open(best[key]).read()): best[key] = p
 for key, p in sorted(best.items()):
@@ -41,7 +42,7 @@ for key, p in sorted(best.items()):
         print("still failing:", key); continue
     row = key.split(":")[1]
     cands = [c for c in commits if any(os.path.basename(f) == row + ".c" for f in c[2])]
-    if len(sys.argv) > 2:
+    if len(sys.argv) > 2 and sys.argv[2] != "-":
         cands = [c for c in commits if c[0].startswith(sys.argv[2])]
     if not cands:
         print("passes now but no commit found for row", row, key); continue
